@@ -106,7 +106,7 @@ def rand_env(rng, ex, ob, allow_zero=True):
         mag = rng.choice([0.05, 0.2, 0.5, 1.0, 1.0, 2.0, 5.0, 12.0]) * rng.uniform(0.8, 1.25)
         if p in ('kp', 'ki', 'kd', 'ref', 'x0', 'y0', 'u', 'u1', 'u2', 'center', 'gain', 'R') and rng.random() < 0.3:
             mag = -mag
-        if allow_zero and p not in ob.get('nz', []) and re.match(r'^(T\d?|Td)$', p) and rng.random() < 0.12:
+        if allow_zero and p not in ob.get('nz', []) and re.match(r'^(T\d?|Td)$', p) and rng.random() < 0.25:
             mag = 0.0
         env[p] = mag
     if 'lower' in env:
@@ -169,7 +169,7 @@ def steady_case(TB, ex, ob, env):
     for k, v in lim.items():
         if k.endswith('_zi') and v != 1.0:
             inside = False
-    worst, scl = 0.0, 1e-300
+    worst = 0.0
     for v in ex['vars']:
         if v['e'] is None:
             continue
@@ -243,6 +243,13 @@ def run_case(ctx, TB, exs, name, ob, env, s):
             r = reduces_case(TB, ex, exs[ob['base']], ob, env, s)
     except ZeroDivisionError:
         r = None
+    except (NameError, KeyError) as e:
+        # an identifier of the block's strings is not an argument / exported name / exported flag: the name-spacing
+        # clause of C18 fails on the live class
+        ctx.case((name, ob['name'], 'unresolved'), None)
+        ctx.oracle_fail('block-unresolved-symbol:' + name, '%s: the exported equation strings use a name that the block '
+                        'does not export under <block>_<var>: %s' % (name, e), case)
+        return False
     ctx.count('kind:' + ob['kind'])
     if r is None:
         ctx.count('singular_or_undefined')
@@ -272,6 +279,111 @@ def run_case(ctx, TB, exs, name, ob, env, s):
     return True
 
 
+# --------------------------------------------------------------------------- supporting evidence: time response
+
+def talbot(F, t, M=32):
+    """fixed-Talbot numerical inverse Laplace transform (Abate & Valko) of F at time t > 0"""
+    import cmath
+    import math
+    r = 2.0 * M / (5.0 * t)
+    acc = 0.5 * F(complex(r, 0.0)).real * math.exp(r * t)
+    for k in range(1, M):
+        th = k * math.pi / M
+        cot = math.cos(th) / math.sin(th)
+        sk = complex(r * th * cot, r * th)
+        sig = th + (th * cot - 1.0) * cot
+        acc += (cmath.exp(t * sk) * F(sk) * complex(1.0, sig)).real
+    return acc * r / M
+
+
+def step_stream(ctx, n_per):
+    """from the declared initial values (a steady state) apply a unit step to the input, integrate the block's DAE
+    (live strings, implicit trapezoid, h = 1 ms) and compare the output with the inverse Laplace transform of the
+    documented transfer function — evidence that the Laplace-domain identities describe the time behaviour"""
+    import numpy as np
+    from translator import blocks as TB
+    classes = {c.__name__: c for c in TB.block_classes()}
+    worst = {}
+    for v in TB.VARIANTS:
+        obs = [o for o in TB.SPEC.get(v['name'], []) if o['kind'] == 'tf' and o['name'] == 'tf' and not o.get('excl')]
+        sts = [o for o in TB.SPEC.get(v['name'], []) if o['kind'] == 'steady' and not o.get('excl')]
+        if not obs or not sts or v['cls'] not in classes:
+            continue
+        ob, st = obs[0], sts[0]
+        try:
+            _step_variant(ctx, TB, classes, v, ob, st, n_per, worst)
+        except (NameError, KeyError) as e:
+            ctx.oracle_fail('block-unresolved-symbol:' + v['name'], '%s: unresolved name in the block strings: %s' % (v['name'], e),
+                            {'kind': 'step', 'variant': v['name']})
+    ctx.cov['step_response_max_rel_err'] = {k: float('%.3g' % e) for k, e in worst.items()}
+
+
+def _step_variant(ctx, TB, classes, v, ob, st, n_per, worst):
+    import numpy as np
+    if True:
+        ex = TB.extract(classes[v['cls']], **v['over'])
+        names = [x['name'] for x in ex['vars'] if x['e'] is not None]
+        isx = np.array([x['kind'] == 'State' for x in ex['vars'] if x['e'] is not None])
+        for k in range(n_per):
+            env = rand_env(ctx.rng, ex, dict(ob, nz=[p for p in ex['symbolic'] if re.match(r'^(T\d?|Td)$', p)]))
+            for p in ex['symbolic']:
+                if re.match(r'^(T\d?|Td)$', p):
+                    env[p] = ctx.rng.uniform(0.05, 0.6)
+            apply_eqs(TB, env, ob)
+            apply_eqs(TB, env, st)
+            flags = {f: (1.0 if f.endswith('_zi') else 0.0) for f in ex['flags']}
+            flags.update(real_flags(ex, env, ('LessThan',)))
+            flags.update({kk: float(vv) for kk, vv in ob['flags'].items()})
+            base = dict(env, **flags)
+            z0 = TB.init_values(ex['vars'], base)
+            zvec = np.array([z0[nm] for nm in names], dtype=float)
+
+            def resid(z, u):
+                e = dict(base, u=u)
+                e.update(zip(names, z))
+                return np.array([TB.py_eval(x['e'], e) for x in ex['vars'] if x['e'] is not None], dtype=float)
+            u1 = env['u'] + 1.0
+            n = len(names)
+            c = resid(np.zeros(n), u1)
+            A = np.column_stack([resid(np.eye(n)[j], u1) - c for j in range(n)])
+            Tm = np.array([(TB.py_eval(x['T'], base) if x['T'] else 1.0) if x['kind'] == 'State' else 0.0
+                           for x in ex['vars'] if x['e'] is not None])
+            # consistent algebraic variables right after the step (states continuous)
+            ia, ix = np.where(~isx)[0], np.where(isx)[0]
+            z = zvec.copy()
+            if len(ia):
+                z[ia] = np.linalg.solve(A[np.ix_(ia, ia)], -(c[ia] + A[np.ix_(ia, ix)] @ z[ix]))
+            h, tend = 1e-3, 1.0
+            Mlhs = np.diag(Tm) - 0.5 * h * A * isx[:, None]
+            Mlhs[ia, :] = A[ia, :]
+            Minv = np.linalg.inv(Mlhs)
+            iy = names.index(ob['out'])
+            y_init = zvec[iy]
+            checks = {int(round(t / h)): t for t in (0.05, 0.2, 0.5, 1.0)}
+            err = 0.0
+            for step in range(1, int(round(tend / h)) + 1):
+                f0 = A @ z + c
+                rhs = np.diag(Tm) @ z + 0.5 * h * f0 * isx + 0.5 * h * c * isx
+                rhs[ia] = -c[ia]
+                z = Minv @ rhs
+                if step in checks:
+                    t = checks[step]
+
+                    def G(sv):
+                        e = dict(base, s=sv)
+                        return TB.py_eval(ob['num'], e) / TB.py_eval(ob['den'], e) / sv
+                    ya = y_init + talbot(G, t)
+                    err = max(err, abs(z[iy] - ya) / (1.0 + abs(ya)))
+            ctx.case(('step', v['name'], k), None)
+            ctx.count('step_response_runs')
+            worst[v['name']] = max(worst.get(v['name'], 0.0), err)
+            if err > 2e-3:
+                ctx.oracle_fail('step-response:' + v['name'], '%s: simulated unit-step response from the declared initial '
+                                'values differs from the documented transfer function by %.3g' % (v['name'], err),
+                                {'kind': 'step', 'variant': v['name'], 'env': jsonable(env)})
+
+
+
 KNOWN_FUNCS = {'Piecewise', 'sqrt', 'exp', 'sin', 'cos', 'Abs', 'sign', 're', 'im', 'log', 'atan', 'atan2', 'tan',
                'Indicator', 'safe_div', 'True', 'False', 'Lt', 'Le', 'abs', 'conj', 'arg', 'radians', 'rad'}
 
@@ -280,7 +392,14 @@ def names_stream(ctx):
     """name-spacing clause on every block instance of every shipped model"""
     import andes
     from andes.core.block import Block
-    ss = andes.System(no_undill=True, default_config=True)
+    try:
+        ss = andes.System(no_undill=True, default_config=True)
+    except (AttributeError, KeyError, NameError) as e:
+        # models address block exports as self.<block>_<var>: a broken naming rule surfaces here
+        ctx.oracle_fail('block-namespacing:system', 'the shipped models cannot be constructed: a model addresses a block '
+                        'export that is not registered under <block>_<var>: %s: %s' % (type(e).__name__, e),
+                        {'kind': 'names', 'model': 'System'})
+        return
     nblk = 0
 
     def walk(m, blk, prob):
@@ -361,8 +480,13 @@ def pinum_stream(ctx, n):
         cases.append(vals)
         # against the symbolic block's strings
         env = {'kp': kp, 'ki': ki, 'ref': ref, 'u': u, 'x0': 0.0, 'B_xi': xi, 'B_y': y}
-        es = {v['name']: TB.py_eval(v['e'], env) for v in pex['vars']}
-        if es['B_y'] != blk.y.e[0] or es['B_xi'] != blk.xi.e[0]:
+        try:
+            es = {v['name']: TB.py_eval(v['e'], env) for v in pex['vars']}
+        except (NameError, KeyError):
+            continue                             # reported by the block stream as block-unresolved-symbol
+        if 'B_y' not in es or 'B_xi' not in es:
+            continue
+        if abs(es['B_y'] - blk.y.e[0]) > 1e-12 * (1 + abs(es['B_y'])) or abs(es['B_xi'] - blk.xi.e[0]) > 1e-12 * (1 + abs(es['B_xi'])):
             ctx.oracle_fail('pinumeric-differs-from-picontroller', 'PIControllerNumeric residuals %r differ from the '
                             'PIController equations %r' % ((blk.y.e[0], blk.xi.e[0]), es), {'kind': 'pinum', 'vals': vals})
         ctx.case(('pinum', tuple(v == 0 for v in vals)), None)
@@ -409,6 +533,7 @@ def run(ctx):
     block_stream(ctx, ctx.n(12, 120))
     names_stream(ctx)
     pinum_stream(ctx, ctx.n(200, 2000))
+    step_stream(ctx, ctx.n(1, 5))
 
 
 def search(ctx):
